@@ -423,6 +423,39 @@ def projected_edges(repo: Repo, op: Obj, label: str):
     return out
 
 
+def project_two_sides(repo: Repo, r: RuleRun) -> int:
+    """Two neighbouring lateral sides projected with edges=True to different surfaces, in both orders: every edge of each side
+    carries that side's surface - the vertical edge the two sides share carries BOTH (a projection added to an edge that is
+    projected already extends it, it does not replace it)."""
+    ps = repo.func("construct.operations.operation.Operation.project_side")
+    emap_ev, emap = build_edge_map(repo)
+    n = 0
+    for s1, s2 in (("front", "right"), ("right", "back"), ("back", "left"), ("left", "front")):
+        for a, b in ((s1, s2), (s2, s1)):
+            op = real_operation(repo)
+            for side, label in ((a, "ALPHA"), (b, "BETA")):
+                ev = Evaluator(repo=repo, module=ps.module)
+                _bind_module_object(ev, repo, repo.func("construct.operations.operation.Operation.project_edge"), "edge_map", emap)
+                _run(ev, ps, [op, side, label], {"edges": True})
+            problems = []
+            for side, label in ((a, "ALPHA"), (b, "BETA")):
+                want = {e for e in hexa.EDGES if e <= hexa.SIDE_CORNERS[side]}
+                got = projected_edges(repo, op, label)
+                if got != want:
+                    problems.append(f"surface of side '{side}' is on edges {sorted(map(sorted, got))}, the side's edges are {sorted(map(sorted, want))}")
+            n += 1
+            r.check(
+                not problems,
+                ps,
+                f"project_side({a!r}) then project_side({b!r}): the shared vertical edge carries both surfaces",
+                f"project_side({a!r}, 'ALPHA', edges=True); project_side({b!r}, 'BETA', edges=True): " + "; ".join(problems) + " - the edge the two sides share keeps only one of the two surfaces "
+                "(written 'project 1 5 (beta)' instead of '(alpha beta)')",
+                ps.node,
+                key=f"two-sides:{a}-{b}",
+            )
+    return n
+
+
 def side_addressing(repo: Repo) -> RuleRun:
     r = RuleRun(PROP, "C10.SIDE-ADDRESSING", floor=40, what="side name -> index / corners / edges / points for all 6 sides and 8 corners")
     r.exhaustive = True
@@ -497,6 +530,8 @@ def side_addressing(repo: Repo) -> RuleRun:
         # labels are added once
         dup = [e for (_, _), e in snapshot_slots(op).items() if isinstance(e, Obj) and e.has("label") and len(e.get("label")) != len(set(e.get("label")))]
         r.check(not dup, ps, "no duplicated labels", f"project_side({side!r}) leaves duplicated labels on an edge: {[d.get('label') for d in dup]}", ps.node, key=f"project_side:{side}:dupes")
+
+    project_two_sides(repo, r)
 
     # project_corner against Operation.points
     pc = repo.func("construct.operations.operation.Operation.project_corner")
